@@ -67,6 +67,7 @@ loop
             hm_view(&headers).len() <= max_headers, // id: at_most_max_headers_fields [C05]
             is_suffix(wire(reader), w1),
             is_suffix(w1, wire(old(reader))),
+            wrote(reader) == wrote(old(reader)), origin(reader) == origin(old(reader)),
             fault_free(old(reader)) ==> fault_free(reader),
         ensures
             rest(w1, Seq::empty(), max_headers as nat) == Some((hm_bytes(&headers), wire(reader))), // id: loop_ends_exactly_after_blank_line [C04,C19]
@@ -111,4 +112,8 @@ headers.append(
         res matches Ok(sh) ==> hm_view(&sh.1).len() <= max_headers, // id: at_most_max_headers_fields [C05]
         is_suffix(wire(final(reader)), wire(old(reader))), // id: wire_only_advances [C05]
         fault_free(old(reader)) ==> fault_free(final(reader)),
+        wrote(final(reader)) == wrote(old(reader)), origin(final(reader)) == origin(old(reader)), // id: reading_the_head_writes_nothing [C12]
+//@@ ifdef errorkind
+        res matches Err(e) ==> !(err_kind(e) is ConnectError),
+//@@ endif
 //@@ end
